@@ -59,6 +59,8 @@ func (c Cand) mustReject() bool { return !c.Default && len(c.uncovered()) > 0 }
 // caseName: case i of the matched union; negative numbers name something that is NOT a case of it
 // (used only in arms that do not bind a payload, and only in candidates that must be rejected anyway
 // because a real case is missing): -1 a payload-less case of the other union Outer, -2 an undeclared name.
+func untypedTarget(ctx string) bool { return ctx == "untypedlambda" || ctx == "untypedexpr" }
+
 func caseName(i int) string {
 	switch i {
 	case -1:
@@ -136,6 +138,12 @@ func (c Cand) funcSrc(name string) string {
 		return fmt.Sprintf("let %s (u:%s) (o:Outer) =\n  match o with\n  | First ->\n%s  | _ -> 0\n", name, targ, c.matchSrc("u", 4))
 	case "strarmdefault":
 		return fmt.Sprintf("let %s (u:%s) (s:string) =\n  match s with\n  | \"a\" ->\n%s  | _ -> 0\n", name, targ, c.matchSrc("u", 4))
+	case "untypedlambda":
+		// the target is an un-annotated lambda parameter: its type is only known after inference
+		return fmt.Sprintf("let %s (us:[]%s) =\n  let f = fun w ->\n%s  slice.Map f us\n", name, targ, c.matchSrc("w", 10))
+	case "untypedexpr":
+		// the target is an expression whose type is an instance of a generic signature
+		return fmt.Sprintf("let %s (us:[]%s) =\n%s", name, targ, c.matchSrc("(slice.Head us)", 2))
 	case "lambda":
 		return fmt.Sprintf("let %s (us:[]%s) =\n  let f = fun (w:%s) ->\n%s  slice.Map f us\n", name, targ, targ, c.matchSrc("w", 10))
 	case "localfunc":
@@ -298,7 +306,15 @@ func checkWith(e *vt.Env, fc string, c Cand) error {
 			unc[caseName(i)] = true
 		}
 		ms := reKase.FindAllString(o.out, -1)
-		if len(ms) == 0 {
+		if untypedTarget(c.Ctx) {
+			// fc cannot type the target where the match is parsed and turns such a match down whatever its
+			// arms are ("Unknown case rule of match expr"): the candidate must be rejected, with some
+			// diagnostic, but which case is missing is not what fc complains about
+			if strings.TrimSpace(o.out) == "" {
+				return fmt.Errorf("rejected without any diagnostic for\n%s", src)
+			}
+			ms = nil
+		} else if len(ms) == 0 {
 			return fmt.Errorf("rejected, but the diagnostic names no uncovered case (uncovered: %v):\n%s\nfor\n%s", caseNames(c.uncovered()), pipeline.Clip(o.out, 500), src)
 		}
 		for _, m := range ms {
@@ -596,6 +612,11 @@ func TestMatchContexts(t *testing.T) {
 			c.Arms = append(c.Arms, Arm{i, form})
 		}
 		c.Default = rapid.IntRange(0, 2).Draw(rt, "default") == 0
+		if c.mustReject() && rapid.IntRange(0, 7).Draw(rt, "untypedTarget") == 0 {
+			// only candidates that must be rejected: whether fc accepts a complete match on a target it cannot
+			// type yet is not promised anywhere
+			c.Ctx = rapid.SampledFrom([]string{"untypedlambda", "untypedexpr"}).Draw(rt, "untypedCtx")
+		}
 		if c.mustReject() && c.Ctx != "outerarm" && c.Ctx != "outerlastarm" && c.Ctx != "outerarmdefault" && rapid.IntRange(0, 3).Draw(rt, "foreignArm") == 0 {
 			// an arm that names a case of another union, or nothing at all, does not cover the missing case
 			fa := Arm{Case: rapid.SampledFrom([]int{-1, -2}).Draw(rt, "foreignCase"), Form: "none"}
